@@ -90,8 +90,10 @@ def c13(ctx):
     per_target = {l: 0 for l in tools.LANGS}
     distinct_outputs = {l: 1 for l in tools.LANGS}
     ncli = 0
-    for p in pool:
-        text = dslprint.render(p)
+    for pi, p in enumerate(pool):
+        # every other protocol is written on ONE line (minified text): declarations then share a source line
+        text = dslprint.render(p) if pi % 2 == 0 else dslprint.render(p, style='oneline')
+        ctx.counters['text-layout:' + ('pretty' if pi % 2 == 0 else 'oneline')] += 1
         r = ctx.vapi.call({'op': 'repeat', 'text_b64': tools.b64(text), 'langs': tools.LANGS, 'reps': r1})
         for l in tools.LANGS:
             if l in r['bad']:
@@ -110,6 +112,16 @@ def c13(ctx):
             base = None
             for k in range(r2):
                 wd = os.path.join(ctx.scr.dir, 'c13', p.tag, str(k))
+                if base is not None and k % 2 == 1:
+                    # "the same DSL with the same flags" into directories that were used before: every file already exists
+                    # with other, longer content
+                    ctx.counters['cli-runs-into-used-directories'] += 1
+                    for l in tools.LANGS:
+                        for fn, data in base[l].items():
+                            fp = os.path.join(wd, 'out_' + l, fn)
+                            os.makedirs(os.path.dirname(fp), exist_ok=True)
+                            with open(fp, 'wb') as fh:
+                                fh.write(b'stale\n' + data[::-1] + b'\nstale tail of an earlier, longer revision\n' * 8)
                 rc, log, trees = cli_compile(ctx, text, tools.LANGS, wd)
                 if rc != 0:
                     ctx.counters['cli-nonzero'] += 1
@@ -152,6 +164,7 @@ def c14(ctx):
     pool = rich_pool(ctx.seed, nproto, 'In')
     pool += [p for p in gen.matrix_protos() if p.tag.startswith(('Mf', 'Md', 'Mp'))][:(12 if quick else 80)]
     pool += [p for p in gen.matrix_protos() if p.tag.startswith(('Mm', 'Ml'))][::(4 if quick else 1)]
+    pool += [p for p in gen.matrix_protos() if p.tag.startswith('Mi')]     # identifier shapes: case conversion must not depend on what ran before
     gens = snaps = 0
     for idx, p in enumerate(pool):
         text = dslprint.render(p)
@@ -249,6 +262,7 @@ REWRITE_SETS = [
     {'name': 'dyn-swap-only', 'p': 0.0, 'force': {'dyn_swap': True}},
     {'name': 'zchar-as-pad', 'p': 0.0, 'force': {'zchar_as_pad': True}},
     {'name': 'explicit-default-pad', 'p': 0.0, 'force': {'explicit_default_pad': True}},
+    {'name': 'length-leading-zero', 'p': 0.0, 'force': {'len_zero': True}},
     {'name': 'len-cksum-spelling', 'p': 0.0, 'force': {'lenspell_swap': True}},
     {'name': 'explicit-default-options', 'p': 0.0, 'force': {('explicit_default:' + k): True for k in dslprint.OPTION_DEFAULTS}},
     {'name': 'keylist-expanded', 'p': 0.0, 'force': {'expand_keylist': True}},
